@@ -1,7 +1,8 @@
 (** C16 — Text layout places every character once, inside the box, on ordered lines.
     Property theorems only; each is closed by [exact] of a lemma proved elsewhere. *)
 From Coq Require Import ZArith QArith List Bool.
-From CV Require Import Base.Dy Text.KPSpec Text.KPQ Text.Layout Text.LayoutProofs.
+From Coq Require Import Permutation.
+From CV Require Import Base.Dy Text.KPSpec Text.KPQ Text.Layout Text.LayoutProofs Text.ReorderProofs.
 Import ListNotations.
 
 (** F. items_size_partition: for every number structure, glyph list, indent, FrenchSpacing and alignment
@@ -50,3 +51,17 @@ Theorem C16_reorder_old_overlap_refuted :
   pairwise_disjoint (reorder_spans jump_spans) = true.
 Proof. exact reorder_old_overlap_refuted. Qed.
 Print Assumptions C16_reorder_old_overlap_refuted.
+
+(** F. reorderSpans (current code), for every list of spans and every assignment of bidi levels: the visual
+    order computed by rule L2 contains every span index exactly once ... *)
+Theorem C16_visual_order_permutation : forall spans,
+  Permutation (visual_order spans) (seq 0 (length spans)).
+Proof. exact visual_order_perm. Qed.
+Print Assumptions C16_visual_order_permutation.
+
+(** ... and reordering only moves spans: their number, widths and levels are kept in logical order. *)
+Theorem C16_reorder_keeps_spans : forall spans,
+  length (reorder_spans spans) = length spans /\
+  map spW (reorder_spans spans) = map spW spans /\ map spL (reorder_spans spans) = map spL spans.
+Proof. exact reorder_spans_keeps. Qed.
+Print Assumptions C16_reorder_keeps_spans.
